@@ -356,9 +356,14 @@ func Scenarios(tier string) []Scenario {
 				Threads: [][]Op{{parse(a)}, {call(0, 0)}}})
 		}
 	}
-	// S4: three threads
-	for k, ci := range shared {
-		c, c2 := Corpus[ci], Corpus[shared[(k+1)%len(shared)]]
+	// S4: three threads (the recursive-filter function is left to the two-thread drivers in the
+	// quick tier: with three threads it alone needs >10^5 schedules at bound 2)
+	shared3 := shared
+	if tier != "thorough" {
+		shared3 = []int{14, 17, 27, 28, 38, 42, 44}
+	}
+	for k, ci := range shared3 {
+		c, c2 := Corpus[ci], Corpus[shared3[(k+1)%len(shared3)]]
 		out = append(out, Scenario{Name: fmt.Sprintf("S4 Parse || f[%s] || g[%s]", c.Path, c2.Path), Fns: []FnSpec{{c.Path, c.Cfg}, {c2.Path, c2.Cfg}}, Docs: []string{c.D1, c2.D1},
 			Threads: [][]Op{{parse(pc[k%len(pc)])}, {call(0, 0)}, {call(1, 1)}}})
 		out = append(out, Scenario{Name: fmt.Sprintf("S4b f[%s] x3", c.Path), Fns: []FnSpec{{c.Path, c.Cfg}}, Docs: []string{c.D1, c.D2},
